@@ -1,4 +1,5 @@
 import InToto.Properties.C16
 #print axioms InToto.C16.independent_calls_commute
 #print axioms InToto.C16.facts_no_shared_writes
+#print axioms InToto.C16.facts_no_process_global_calls
 #print axioms InToto.C16.shared_write_breaks_independence
